@@ -810,3 +810,233 @@ Proof.
   assert (Hg2 : guard0 (1 * S) == S) by (rewrite guard0_nz; [ring|]; intro H; apply HS; lra).
   repeat constructor; rewrite ?Hg1, ?Hg2; field; repeat split; assumption.
 Qed.
+
+(* ====================================================================== *)
+(* effective degree: double sums and index shifts                          *)
+(* ====================================================================== *)
+Lemma sumn2_ext r c f g : (forall s i, (s < r)%nat -> (i < c)%nat -> f s i == g s i) -> sumn2 r c f == sumn2 r c g.
+Proof. intros H. unfold sumn2. apply sumn_ext. intros s Hs. apply sumn_ext. intros i Hi. apply H; assumption. Qed.
+Lemma sumn2_add r c f g : sumn2 r c (fun s i => f s i + g s i) == sumn2 r c f + sumn2 r c g.
+Proof. unfold sumn2. rewrite <- sumn_add. apply sumn_ext. intros s _. apply sumn_add. Qed.
+Lemma sumn2_sub r c f g : sumn2 r c (fun s i => f s i - g s i) == sumn2 r c f - sumn2 r c g.
+Proof. unfold sumn2. rewrite <- sumn_sub. apply sumn_ext. intros s _. apply sumn_sub. Qed.
+Lemma sumn2_scal r c a f : sumn2 r c (fun s i => a * f s i) == a * sumn2 r c f.
+Proof. unfold sumn2. rewrite <- sumn_scal. apply sumn_ext. intros s _. apply sumn_scal. Qed.
+Lemma sumn2_swap r c f : sumn2 r c f == sumn2 c r (fun i s => f s i).
+Proof.
+  unfold sumn2. induction r.
+  - rewrite sumn_O. symmetry. apply sumn_zero. intros i _. apply sumn_O.
+  - rewrite sumn_S_last, IHr. rewrite <- sumn_add. apply sumn_ext. intros i _. rewrite sumn_S_last. reflexivity.
+Qed.
+
+(* sum_s [s <> 0] g (s-1) = sum_{s < n-1} g s *)
+Lemma sum_shift_up n g : sumn n (fun s => if Nat.eqb s 0 then 0 else g (s - 1)%nat) == sumn (n - 1) g.
+Proof.
+  destruct n; [reflexivity|]. rewrite sumn_S_first. cbn [Nat.eqb]. replace (S n - 1)%nat with n by lia.
+  rewrite (sumn_ext n _ g) by (intros i _; cbn [Nat.eqb]; replace (S i - 1)%nat with i by lia; reflexivity). ring.
+Qed.
+(* sum_i [i+1 <> c] h (i+1) = sum_{i < c} h i - h 0 *)
+Lemma sum_shift_down c h : (1 <= c)%nat -> sumn c (fun i => if Nat.eqb (i + 1) c then 0 else h (i + 1)%nat) == sumn c h - h 0%nat.
+Proof.
+  intros Hc. destruct c as [|c]; [lia|]. rewrite sumn_S_last, (sumn_S_first c h).
+  replace (Nat.eqb (c + 1) (S c)) with true by (symmetry; apply Nat.eqb_eq; lia).
+  rewrite (sumn_ext c _ (fun i => h (S i))).
+  - ring.
+  - intros i Hi. replace (Nat.eqb (i + 1) (S c)) with false by (symmetry; apply Nat.eqb_neq; lia).
+    replace (i + 1)%nat with (S i) by lia. reflexivity.
+Qed.
+Lemma Qnat_add1 i : Qnat (i + 1) == Qnat i + 1.
+Proof. replace (i + 1)%nat with (S i) by lia. apply Qnat_S. Qed.
+
+Section Shifts.
+Variables (r c : nat) (A : nat -> nat -> Q).
+(* an infected neighbour recovers: (s, i) <- (s-1, i+1) [SIS] or (s, i+1) [SIR], leaving at rate i *)
+Lemma gamma_shift_SIS : (1 <= r)%nat -> (1 <= c)%nat ->
+  sumn2 r c (fun s i => (Qnat i + 1) * sm1ip1 c A s i - Qnat i * A s i) == - sumn c (fun i => Qnat i * A (r - 1)%nat i).
+Proof.
+  intros Hr Hc. rewrite sumn2_sub. unfold sumn2.
+  rewrite (sumn_ext r (fun s => sumn c (fun i => (Qnat i + 1) * sm1ip1 c A s i))
+                      (fun s => if Nat.eqb s 0 then 0 else sumn c (fun i => Qnat i * A (s - 1)%nat i))).
+  - rewrite (sum_shift_up r (fun s => sumn c (fun i => Qnat i * A s i))). destruct r as [|r']; [lia|]. replace (S r' - 1)%nat with r' by lia. rewrite sumn_S_last. ring.
+  - intros s Hs. unfold sm1ip1. destruct (Nat.eqb s 0) eqn:E.
+    + cbn [orb]. apply sumn_zero. intros i _. ring.
+    + cbn [orb]. rewrite (sumn_ext c _ (fun i => if Nat.eqb (i + 1) c then 0 else (fun k => Qnat k * A (s - 1)%nat k) (i + 1)%nat)).
+      * rewrite (sum_shift_down c (fun k => Qnat k * A (s - 1)%nat k)) by exact Hc. cbn beta. rewrite Qnat_0. ring.
+      * intros i _. destruct (Nat.eqb (i + 1) c); [ring|]. cbn beta. rewrite Qnat_add1. reflexivity.
+Qed.
+Lemma gamma_shift_SIR s :
+  sumn c (fun i => (Qnat i + 1) * sip1 c A s i - Qnat i * A s i) == 0.
+Proof.
+  destruct c as [|c'] eqn:Ec; [reflexivity|]. rewrite <- Ec. assert (Hc : (1 <= c)%nat) by lia.
+  rewrite sumn_sub.
+  rewrite (sumn_ext c _ (fun i => if Nat.eqb (i + 1) c then 0 else (fun k => Qnat k * A s k) (i + 1)%nat)).
+  - rewrite (sum_shift_down c (fun k => Qnat k * A s k)) by exact Hc. cbn beta. rewrite Qnat_0. ring.
+  - intros i _. unfold sip1. destruct (Nat.eqb (i + 1) c); [ring|]. cbn beta. rewrite Qnat_add1. reflexivity.
+Qed.
+End Shifts.
+(* a susceptible neighbour is infected: (s, i) <- (s+1, i-1), leaving at rate s: the transposed shift *)
+Lemma tau_shift r c A : (1 <= r)%nat -> (1 <= c)%nat ->
+  sumn2 r c (fun s i => (Qnat s + 1) * sp1im1 r A s i - Qnat s * A s i) == - sumn r (fun s => Qnat s * A s (c - 1)%nat).
+Proof.
+  intros Hr Hc. rewrite sumn2_swap.
+  rewrite <- (gamma_shift_SIS c r (fun a b => A b a) Hc Hr).
+  apply sumn2_ext. intros i s _ _. unfold sp1im1, sm1ip1. reflexivity.
+Qed.
+
+Lemma sumn2_lin4 r c a1 a2 a3 a4 f1 f2 f3 f4 :
+  sumn2 r c (fun s i => a1 * f1 s i + a2 * f2 s i + a3 * f3 s i + a4 * f4 s i)
+  == a1 * sumn2 r c f1 + a2 * sumn2 r c f2 + a3 * sumn2 r c f3 + a4 * sumn2 r c f4.
+Proof.
+  rewrite (sumn2_add r c (fun s i => a1 * f1 s i + a2 * f2 s i + a3 * f3 s i) (fun s i => a4 * f4 s i)).
+  rewrite (sumn2_add r c (fun s i => a1 * f1 s i + a2 * f2 s i) (fun s i => a3 * f3 s i)).
+  rewrite (sumn2_add r c (fun s i => a1 * f1 s i) (fun s i => a2 * f2 s i)).
+  rewrite !sumn2_scal. reflexivity.
+Qed.
+
+(* ====================================================================== *)
+(* effective degree                                                        *)
+(* ====================================================================== *)
+Section EffDeg.
+Variables (r c : nat).
+Hypothesis Hr : (1 <= r)%nat.
+Hypothesis Hc : (1 <= c)%nat.
+
+(* the cells from which the code's zero-padded shifts lose mass: last row (s = r-1, i >= 1) and last column
+   (i = c-1, s >= 1).  In the model's feasible region S_{s,i} = 0 for s + i > kmax = r-1 = c-1, so both vanish. *)
+Definition lost_row (A : nat -> nat -> Q) : Q := sumn c (fun i => Qnat i * A (r - 1)%nat i).
+Definition lost_col (A : nat -> nat -> Q) : Q := sumn r (fun s => Qnat s * A s (c - 1)%nat).
+Definition boundary0 (A : nat -> nat -> Q) : Prop :=
+  (forall i, (1 <= i < c)%nat -> A (r - 1)%nat i == 0) /\ (forall s, (1 <= s < r)%nat -> A s (c - 1)%nat == 0).
+Lemma boundary0_lost A : boundary0 A -> lost_row A == 0 /\ lost_col A == 0.
+Proof.
+  intros [H1 H2]. split.
+  - apply sumn_zero. intros i Hi. destruct i; [rewrite Qnat_0; ring|]. rewrite H1 by lia. ring.
+  - apply sumn_zero. intros s Hs. destruct s; [rewrite Qnat_0; ring|]. rewrite H2 by lia. ring.
+Qed.
+
+Section SIS.
+Variables (X : vec) (tau gamma : Q).
+Notation S := (es_S X c). Notation I := (es_I X r c).
+Notation dS := (es_dS X r c tau gamma). Notation dI := (es_dI X r c tau gamma).
+
+Lemma edSIS_layout t s i : (s < r)%nat -> (i < c)%nat ->
+  let D := dSIS_effective_degree X r c tau gamma t in
+  vnth (s * c + i) D = dS s i /\ vnth (r * c + s * c + i) D = dI s i.
+Proof.
+  intros Hs Hi D. unfold D, dSIS_effective_degree, vnth. split.
+  - rewrite nth_app_lt by (rewrite tab2_length; nia). apply nth_tab2; assumption.
+  - replace (r * c + s * c + i)%nat with (r * c + (s * c + i))%nat by lia.
+    rewrite nth_app_at by apply tab2_length. apply nth_tab2; assumption.
+Qed.
+Lemma edSIS_totals t :
+  let D := dSIS_effective_degree X r c tau gamma t in
+  vsum (firstn (r * c) D) == sumn2 r c dS /\ vsum (skipn (r * c) D) == sumn2 r c dI.
+Proof.
+  intros D. unfold D, dSIS_effective_degree. split.
+  - rewrite <- (tab2_length r c dS) at 1. rewrite firstn_app, Nat.sub_diag, firstn_all. cbn [firstn]. rewrite app_nil_r. apply vsum_tab2.
+  - rewrite <- (tab2_length r c dS) at 1. rewrite skipn_app, Nat.sub_diag, skipn_all. cbn [skipn app]. apply vsum_tab2.
+Qed.
+
+(* exact totals of the two blocks of the right-hand side *)
+Lemma edSIS_sum_dS :
+  sumn2 r c dS == - tau * es_SI X r c + gamma * sumn2 r c I - gamma * lost_row S - tau * es_ISS X r c / es_SS X r c * lost_col S.
+Proof.
+  rewrite (sumn2_ext r c dS (fun s i =>
+     (- tau) * (Qnat i * S s i) + gamma * I s i
+     + gamma * ((Qnat i + 1) * sm1ip1 c S s i - Qnat i * S s i)
+     + (tau * es_ISS X r c / es_SS X r c) * ((Qnat s + 1) * sp1im1 r S s i - Qnat s * S s i)))
+    by (intros s i _ _; unfold es_dS, Qdiv; ring).
+  rewrite sumn2_lin4, gamma_shift_SIS, tau_shift by assumption. unfold es_SI, lost_row, lost_col. ring.
+Qed.
+Lemma edSIS_sum_dI :
+  sumn2 r c dI == tau * es_SI X r c - gamma * sumn2 r c I - gamma * lost_row I - tau * (es_ISI X r c / es_SI X r c + 1) * lost_col I.
+Proof.
+  rewrite (sumn2_ext r c dI (fun s i =>
+     tau * (Qnat i * S s i) + (- gamma) * I s i
+     + gamma * ((Qnat i + 1) * sm1ip1 c I s i - Qnat i * I s i)
+     + (tau * (es_ISI X r c / es_SI X r c + 1)) * ((Qnat s + 1) * sp1im1 r I s i - Qnat s * I s i)))
+    by (intros s i _ _; unfold es_dI, Qdiv; ring).
+  rewrite sumn2_lin4, gamma_shift_SIS, tau_shift by assumption. unfold es_SI, lost_row, lost_col. ring.
+Qed.
+(* C06: S = sum S_si and I = sum I_si are both read from the solver: S + I = N rests on this *)
+Lemma edSIS_conserve : boundary0 S -> boundary0 I -> sumn2 r c dS + sumn2 r c dI == 0.
+Proof.
+  intros HS HI. destruct (boundary0_lost _ HS) as [S1 S2]. destruct (boundary0_lost _ HI) as [I1 I2].
+  rewrite edSIS_sum_dS, edSIS_sum_dI, S1, S2, I1, I2. ring.
+Qed.
+End SIS.
+
+(* C08 tau = 0 (SIS): S' = + gamma I, I' = - gamma I for the totals *)
+Lemma edSIS_tau0 X gamma : boundary0 (es_S X c) -> boundary0 (es_I X r c) ->
+  sumn2 r c (es_dS X r c 0 gamma) == gamma * sumn2 r c (es_I X r c) /\
+  sumn2 r c (es_dI X r c 0 gamma) == - gamma * sumn2 r c (es_I X r c).
+Proof.
+  intros HS HI. destruct (boundary0_lost _ HS) as [S1 S2]. destruct (boundary0_lost _ HI) as [I1 I2].
+  rewrite edSIS_sum_dS, edSIS_sum_dI, S1, S2, I1, I2. split; unfold Qdiv; ring.
+Qed.
+
+Section SIR.
+Variables (X : vec) (N tau gamma : Q).
+Notation S := (er_S X c).
+Notation dS := (er_dS X r c tau gamma).
+Lemma edSIR_layout t s i : (s < r)%nat -> (i < c)%nat ->
+  let D := dSIR_effective_degree X N r c tau gamma t in
+  vnth (s * c + i) D = dS s i /\ vnth (r * c) D = er_dR X N r c gamma.
+Proof.
+  intros Hs Hi D. unfold D, dSIR_effective_degree, vnth. split.
+  - rewrite nth_app_lt by (rewrite tab2_length; nia). apply nth_tab2; assumption.
+  - rewrite <- (Nat.add_0_r (r * c)). rewrite nth_app_at by apply tab2_length. reflexivity.
+Qed.
+Lemma edSIR_sum_dS :
+  sumn2 r c dS == - tau * sumn2 r c (fun s i => Qnat i * S s i) - tau * er_ISS X r c / er_SS X r c * lost_col S.
+Proof.
+  rewrite (sumn2_ext r c dS (fun s i =>
+     (- tau) * (Qnat i * S s i) + 0 * 0
+     + gamma * ((Qnat i + 1) * sip1 c S s i - Qnat i * S s i)
+     + (tau * er_ISS X r c / er_SS X r c) * ((Qnat s + 1) * sp1im1 r S s i - Qnat s * S s i)))
+    by (intros s i _ _; unfold er_dS, Qdiv; ring).
+  rewrite sumn2_lin4, tau_shift by assumption.
+  assert (G : sumn2 r c (fun s i => (Qnat i + 1) * sip1 c S s i - Qnat i * S s i) == 0)
+    by (unfold sumn2; apply sumn_zero; intros s _; apply gamma_shift_SIR).
+  rewrite G. unfold lost_col. ring.
+Qed.
+(* C06: R' = gamma I with I = N - S - R the very expression the wrapper returns; S' <= 0 *)
+Lemma edSIR_dR : er_dR X N r c gamma == gamma * (N - sumn2 r c S - er_R X r c).
+Proof. reflexivity. Qed.
+Lemma edSIR_sign_dS : boundary0 S -> 0 <= tau -> Forall (fun x => 0 <= x) X -> sumn2 r c dS <= 0.
+Proof.
+  intros HS Ht HX. destruct (boundary0_lost _ HS) as [_ S2]. rewrite edSIR_sum_dS, S2.
+  assert (H : 0 <= sumn2 r c (fun s i => Qnat i * S s i)).
+  { unfold sumn2. apply sumn_nonneg. intros s _. apply sumn_nonneg. intros i _.
+    apply Qmult_le_0_compat; [apply Qnat_nonneg|apply nonneg_vnth; exact HX]. }
+  assert (H2 : 0 <= tau * sumn2 r c (fun s i => Qnat i * S s i)) by (apply Qmult_le_0_compat; assumption).
+  unfold Qdiv. lra.
+Qed.
+End SIR.
+(* C08 tau = 0 (SIR): S' = 0 for the total (no boundary condition needed), hence I' = -S' - R' = - gamma I *)
+Lemma edSIR_tau0 X N gamma :
+  sumn2 r c (er_dS X r c 0 gamma) == 0 /\
+  - sumn2 r c (er_dS X r c 0 gamma) - er_dR X N r c gamma == - gamma * (N - sumn2 r c (er_S X c) - er_R X r c).
+Proof.
+  assert (E : sumn2 r c (er_dS X r c 0 gamma) == 0) by (rewrite edSIR_sum_dS; unfold Qdiv; ring).
+  split; [exact E|]. rewrite E, edSIR_dR. ring.
+Qed.
+
+(* C08 gamma = 0: the S-blocks of the SIS and SIR systems coincide cell by cell *)
+Lemma ed_gamma0 Ssi Isi (R : Q) tau s i :
+  length Ssi = (r * c)%nat -> (s < r)%nat -> (i < c)%nat ->
+  es_dS (Ssi ++ Isi) r c tau 0 s i == er_dS (Ssi ++ [R]) r c tau 0 s i.
+Proof.
+  intros HL Hs Hi.
+  assert (EA : forall a b, (a < r)%nat -> (b < c)%nat -> es_S (Ssi ++ Isi) c a b = er_S (Ssi ++ [R]) c a b).
+  { intros a b Ha Hb. unfold es_S, er_S, vnth. rewrite !nth_app_lt by (rewrite HL; nia). reflexivity. }
+  assert (E1 : es_ISS (Ssi ++ Isi) r c == er_ISS (Ssi ++ [R]) r c)
+    by (unfold es_ISS, er_ISS; apply sumn2_ext; intros a b Ha Hb; rewrite EA by assumption; reflexivity).
+  assert (E2 : es_SS (Ssi ++ Isi) r c == er_SS (Ssi ++ [R]) r c)
+    by (unfold es_SS, er_SS; apply sumn2_ext; intros a b Ha Hb; rewrite EA by assumption; reflexivity).
+  assert (E3 : sp1im1 r (es_S (Ssi ++ Isi) c) s i = sp1im1 r (er_S (Ssi ++ [R]) c) s i).
+  { unfold sp1im1. destruct (Nat.eqb i 0) eqn:Ei; [reflexivity|]. destruct (Nat.eqb (s + 1) r) eqn:Es; [reflexivity|].
+    cbn [orb]. apply Nat.eqb_neq in Ei, Es. apply EA; lia. }
+  unfold es_dS, er_dS. rewrite E1, E2, E3, (EA s i Hs Hi). unfold Qdiv. ring.
+Qed.
+End EffDeg.
